@@ -40,8 +40,10 @@ type CaseData struct {
 	Kind      string   `json:"kind"` // gen | corpus
 	Name      string   `json:"name"`
 	Source    string   `json:"source"`
-	WantOut   []byte   `json:"want_out"`   // base64 in JSON: the output may hold invalid UTF-8
-	WantCrash string   `json:"want_crash"` // gc's "panic: ..." header or "fatal error: ..." line, "" if the program ended normally
+	WantOut   []byte   `json:"want_out"`           // base64 in JSON: the output may hold invalid UTF-8 (corpus: gc's stdout)
+	WantErr   []byte   `json:"want_err,omitempty"` // corpus: gc's stderr
+	Opts      []string `json:"opts,omitempty"`     // corpus: options after `// run`, passed to the interpreter command
+	WantCrash string   `json:"want_crash"`         // gc's "panic: ..." header or "fatal error: ..." line, "" if the program ended normally
 	WantExit  int      `json:"want_exit"`
 	Features  []string `json:"features,omitempty"`
 	UseCtx    bool     `json:"use_ctx"`
@@ -130,6 +132,10 @@ func MakeCases(d *core.Driver, n int, label string) ([]core.Case, int, error) {
 }
 
 func (prop) Drive(d *core.Driver) error {
+	if os.Getenv("VERIF_C01_HALF") == "corpus" { // development aid: only the corpus half
+		fmt.Println("NOTE property=C01 VERIF_C01_HALF=corpus: the generated-program half is not run")
+		return DriveCorpus(d)
+	}
 	n := d.N(100, 3000)
 	d.T.Rule = "typed random Go programs (gen/goprog: expressions over every basic type and width, shifts, conversions, division, strings, composite values, closures, defer/panic/recover, labelled control flow, shuffled package-level initialisation) are compiled and run by gc (reference) and built and run by scriggo; printed bytes, crash header and outcome must be equal. A case is non-trivial and distinct by the multiset of VM opcodes in its disassembly (sha1 of the sorted opcode histogram)."
 	d.T.Assumptions = []string{"gc (pinned go1.25.0, language version go1.21) is the reference semantics", "generated programs avoid behaviour the Go spec leaves implementation-defined (float→int overflow, map order, evaluation order of non-call operands, aliasing after append)"}
@@ -170,7 +176,7 @@ func (prop) Drive(d *core.Driver) error {
 	d.T.Set("generator_features_covered", len(feats))
 	d.T.Set("programs_ending_in_unrecovered_panic", crashes)
 	d.T.Set("disagreements_checked", len(cases))
-	return nil
+	return DriveCorpus(d)
 }
 
 func sortedKeys(m map[string]bool) []string {
@@ -274,6 +280,9 @@ func OpcodeHistogram(asm string) map[string]int {
 func (prop) Work(c core.Case) core.Result {
 	var cd CaseData
 	c.Decode(&cd)
+	if cd.Kind == "corpus" {
+		return workCorpus(cd)
+	}
 	return Compare(cd, &scriggo.BuildOptions{})
 }
 
